@@ -10,7 +10,7 @@ EXTENDS DListOps, Json, IOUtils
 CONSTANT Level
 Recs == ndJsonDeserialize(IOEnv.TRACE)
 
-ToSt(j) == [hn |-> j.hn, hp |-> j.hp, size |-> j.size, nx |-> j.nx, pv |-> j.pv]
+ToSt(j) == [hn |-> j.hn, hp |-> j.hp, size |-> j.size, nx |-> j.nx, pv |-> j.pv, offk |-> j.offk]
 StepOK(rec) ==
     IF rec.out # "ok" \/ rec.pre.bad \/ rec.post.bad THEN FALSE ELSE
     LET r == Apply(ToSt(rec.pre), rec) IN
